@@ -121,10 +121,10 @@ var globalKeys = []annChoice{
 	{"timeout-server", []string{"55s", "65s"}},
 	{"balance-algorithm", []string{"leastconn"}},
 	{"config-backend", []string{"http-request set-header x-global 1"}},
-	{"cross-namespace-secrets-crt", []string{"allow", "deny"}},
-	{"cross-namespace-secrets-ca", []string{"allow", "deny"}},
-	{"cross-namespace-secrets-passwd", []string{"allow", "deny"}},
-	{"cross-namespace-services", []string{"allow", "deny"}},
+	{"cross-namespace-secrets-crt", []string{"allow", "deny", "allow", "deny", "Deny"}},
+	{"cross-namespace-secrets-ca", []string{"allow", "deny", "allow", "deny", "Deny"}},
+	{"cross-namespace-secrets-passwd", []string{"allow", "deny", "allow", "deny", "Deny"}},
+	{"cross-namespace-services", []string{"allow", "deny", "allow", "deny", "Deny"}},
 	{"forwardfor", []string{"ignore", "ifmissing"}},
 	{"syslog-endpoint", []string{"127.0.0.1:514"}},
 	{"auth-proxy", []string{"_front__auth:14415-14416", "_front__auth:14415-14415", "_front__auth:14415-14419"}},
